@@ -46,8 +46,7 @@ def cxVasprintfOld (out out2 : Bytes) : Int × Option Bytes :=
 /-- bytes of the next line: up to and including the first `\n`, or everything -/
 def nextLine : Bytes → Bytes
   | [] => []
-  | 10 :: _ => [10]
-  | c :: r => c :: nextLine r
+  | c :: r => if c = 10 then [10] else c :: nextLine r
 
 /-- `*size_p *= 2` until `need ≤ size` -/
 def growCap : (fuel size need : Nat) → Nat
